@@ -1,6 +1,6 @@
 //! C08 scalar arithmetic: value monitor against big-integer / IEEE oracles, three forms.
 use crate::real::{self, ErrKind, Outcome};
-use crate::util::{Cfg, Deadline, FLOAT_BOUNDARY, INT_BOUNDARY, Obj, Report, Rng};
+use crate::util::{Cfg, Deadline, FLOAT_BOUNDARY, INT_BOUNDARY, Obj, Report, Rng, truncate};
 use simplesl::{Code, Interpreter, function::Function, variable::Variable};
 use std::collections::HashMap;
 use std::sync::Arc;
@@ -227,6 +227,9 @@ fn judge(exp: &Exp, out: &Outcome) -> Result<(), String> {
 
 struct Funcs {
     map: HashMap<String, Arc<Function>>,
+    /// helper texts the checker refused: every one of them applies an operator to operands of its documented
+    /// types, so a refusal is a violation (reported once per helper at the end of the run)
+    rejected: Vec<(String, String, String)>,
 }
 
 impl Funcs {
@@ -240,7 +243,9 @@ impl Funcs {
         let f = match r {
             Ok(Ok(Ok(Variable::Function(f)))) => f,
             other => {
-                eprintln!("c08: helper function did not parse: {text}: {:?}", other.map(|r| r.map(|r| r.map(|v| v.to_string()))));
+                if !self.rejected.iter().any(|(k, _, _)| k == key) {
+                    self.rejected.push((key.to_string(), text.clone(), format!("{:?}", other.map(|r| r.map(|r| r.map(|v| v.to_string()))))));
+                }
                 return None;
             }
         };
@@ -554,7 +559,7 @@ pub fn run(cfg: &Cfg, rep: &mut Report) {
     let deadline = Deadline::new(cfg.budget_s);
     let mut ctx = Ctx {
         rep,
-        funcs: Funcs { map: HashMap::new() },
+        funcs: Funcs { map: HashMap::new(), rejected: Vec::new() },
         half: true,
     };
     // exhaustive boundary grid, split over shards by cell index
@@ -641,16 +646,37 @@ pub fn run(cfg: &Cfg, rep: &mut Report) {
         done += 1;
     }
     ctx.rep.add("random_cases", done);
+    ctx.report_rejected_helpers();
+}
+
+impl Ctx<'_> {
+    fn report_rejected_helpers(&mut self) {
+        for (key, text, why) in std::mem::take(&mut self.funcs.rejected) {
+            self.rep.violation(
+                &format!("c08:operator-form-rejected:{key}"),
+                &format!("`{text}` applies an operator to operands of its documented types but is not accepted: {}", truncate(&why, 160)),
+                "c08",
+                &format!("HELPER\t{key}\t{text}"),
+            );
+        }
+    }
 }
 
 pub fn replay(payload: &str, rep: &mut Report) {
     let mut ctx = Ctx {
         rep,
-        funcs: Funcs { map: HashMap::new() },
+        funcs: Funcs { map: HashMap::new(), rejected: Vec::new() },
         half: true,
     };
     for line in payload.lines() {
         let f: Vec<&str> = line.split('\t').collect();
+        if f.len() == 3 && f[0] == "HELPER" {
+            let text = f[2].to_string();
+            ctx.rep.evaluations += 1;
+            let _ = ctx.funcs.get(f[1], || text);
+            ctx.report_rejected_helpers();
+            continue;
+        }
         if f.len() < 5 {
             continue;
         }
